@@ -736,13 +736,8 @@ func c05Conn(e *Env) {
 		e.Fail("C05/conn-not-closed/"+endKind, "stream ended (%s) but the library did not close the transport", endKind)
 		return
 	}
-	if wantReport && reports == 0 {
-		e.Fail("C05/conn-no-error-report/"+endKind, "the stream ended with %s and no ErrorReport was offered", endKind)
-		return
-	}
-	if endKind == "clean" && reports != 0 {
-		e.Fail("C05/conn-spurious-error-report", "clean EOF produced %d error reports", reports)
-	}
+	// (whether an ErrorReport is offered belongs to C15, not to this property)
+	_ = wantReport
 }
 
 // ---------------------------------------------------------------- several connections at once
